@@ -33,6 +33,28 @@ type noiseCase struct {
 	// Imp = 1 (KK): the initiator presents the paired client's public key
 	// but computes with a different private key
 	Imp int `json:"imp"`
+	// Forge (XX, pwEq false): an initiator that does not know the passphrase
+	// but chooses its ephemeral scalar (EphScalar: e = EphScalar*G) and puts
+	// into the masked-key field of act one either that ephemeral unmasked
+	// ("unmasked") or bytes that are no point at all ("zero", "prefix5",
+	// "offcurve"): if the responder's view of the remote ephemeral ever
+	// falls back to something the attacker can compute, the act-one MAC
+	// verifies and the responder answers
+	Forge     string `json:"forge,omitempty"`
+	EphScalar int    `json:"ephScalar,omitempty"`
+}
+
+// notOnCurve returns a 33-byte compressed encoding whose x is not on the curve.
+func notOnCurve() []byte {
+	b := make([]byte, 33)
+	b[0] = 2
+	for x := 1; x < 255; x++ {
+		b[32] = byte(x)
+		if _, err := btcec.ParsePubKey(b); err != nil {
+			return b
+		}
+	}
+	return b
 }
 
 func payloadOf(class string) []byte {
@@ -81,6 +103,7 @@ func runNoiseCase(c noiseCase, salt int64) map[string]any {
 	p := defaultHs()
 	p.cMin, p.cMax, p.sMin, p.sMax = byte(c.CMin), byte(c.CMax), byte(c.SMin), byte(c.SMax)
 	p.auth = payloadOf(c.Payload)
+	p.cliStale = []byte("auth data of an earlier connection of this session")
 	other := newPriv()
 	if !c.PwEq {
 		p.srvEnt = append([]byte(nil), p.cliEnt...)
@@ -107,6 +130,23 @@ func runNoiseCase(c noiseCase, salt int64) map[string]any {
 			p.cliECDH = &impostorKey{pub: p.cliKey.PubKey(), priv: other}
 		}
 	}
+	var forged []byte
+	if c.Forge != "" {
+		sc := make([]byte, 32)
+		sc[31] = byte(c.EphScalar)
+		ek, epub := btcec.PrivKeyFromBytes(sc)
+		p.cliEphGen = func() (*btcec.PrivateKey, error) { return ek, nil }
+		switch c.Forge {
+		case "unmasked":
+			forged = epub.SerializeCompressed()
+		case "zero":
+			forged = make([]byte, 33)
+		case "prefix5":
+			forged = append([]byte{5}, epub.SerializeCompressed()[1:]...)
+		default:
+			forged = notOnCurve()
+		}
+	}
 	a, b := mitm.NewPair()
 	a.ReadTimeout, b.ReadTimeout = 400*time.Millisecond, 400*time.Millisecond
 	tamper := func(acts []int) func([]byte) []byte {
@@ -121,6 +161,9 @@ func runNoiseCase(c noiseCase, salt int64) map[string]any {
 			out := append([]byte(nil), chunk...)
 			if v := c.VerSub[act-1]; v >= 0 {
 				out[0] = byte(v)
+			}
+			if act == 1 && forged != nil && len(out) >= 34 {
+				copy(out[1:34], forged)
 			}
 			if c.CorruptAct == act {
 				fs := actFields(c.Pattern, act, chunk)
@@ -174,8 +217,12 @@ func runNoiseCase(c noiseCase, salt int64) map[string]any {
 	o["rRsOK"] = b2i(rDone && ss.RemoteStatic != nil && ss.RemoteStatic.IsEqual(p.cliKey.PubKey()))
 	got := res.cd.AuthData()
 	o["payloadOK"] = b2i(iDone && bytes.Equal(got, p.auth))
-	// what was published to the connection data
+	// what was published to the connection data (it held the auth data of
+	// an earlier connection before)
 	o["iAuthLen"] = len(got)
+	if bytes.Equal(got, p.cliStale) {
+		o["iAuthLen"] = 0
+	}
 	name := func(k *btcec.PublicKey) string {
 		switch {
 		case k == nil:
@@ -275,6 +322,18 @@ func TestNoiseCases(t *testing.T) {
 						}
 					}
 				}
+			}
+		}
+	}
+	// an initiator without the passphrase that forges act one around an
+	// ephemeral of its own choosing (every tier, in full)
+	for _, fg := range []string{"unmasked", "zero", "prefix5", "offcurve"} {
+		for _, sc := range []int{1, 2, 3} {
+			for _, vr := range [][2]int{{0, 2}, {0, 0}, {2, 2}} {
+				add(noiseCase{Pattern: "XX", CMin: vr[0], CMax: vr[1], SMin: 0, SMax: 2, PwEq: false,
+					IExpect: "none", RExpect: "none", Payload: "small",
+					VerSub: [3]int{-1, -1, -1}, CorruptField: 1, Bit: -1, PwBit: -1,
+					Forge: fg, EphScalar: sc})
 			}
 		}
 	}
